@@ -373,3 +373,343 @@ pub fn for_each_seq(base: usize, len: usize, mut f: impl FnMut(&[usize])) {
         }
     }
 }
+
+// ------------------------------------------------------------------------------------------
+// Crash-isolated sharding: every shard runs in a forked child under an address-space limit and
+// a per-case watchdog; a shard whose process dies is located (which case), confirmed by a
+// second execution of that case alone, and completed with the case skipped.
+
+impl Report {
+    pub fn to_json(&self) -> J {
+        json!({
+            "evaluations": self.evaluations,
+            "distinct": self.distinct.iter().collect::<Vec<_>>(),
+            "states": self.states,
+            "transitions": self.transitions,
+            "traces_validated": self.traces_validated,
+            "outcomes": self.outcomes,
+            "samples": self.samples,
+            "violations": self.violations.iter().map(|v| json!({"signature": v.signature, "what": v.what, "case": v.case})).collect::<Vec<_>>(),
+            "violation_count": self.violation_count,
+            "caps": self.caps,
+            "resource": self.resource,
+            "extra": self.extra,
+            "counters": self.counters,
+            "exhaustive": self.exhaustive,
+        })
+    }
+    pub fn from_json(v: &J) -> Report {
+        let mut r = Report::new();
+        r.evaluations = v["evaluations"].as_u64().unwrap_or(0);
+        r.distinct = v["distinct"].as_array().map(|a| a.iter().filter_map(|x| x.as_u64()).collect()).unwrap_or_default();
+        r.states = v["states"].as_u64().unwrap_or(0);
+        r.transitions = v["transitions"].as_u64().unwrap_or(0);
+        r.traces_validated = v["traces_validated"].as_u64().unwrap_or(0);
+        if let Some(o) = v["outcomes"].as_object() {
+            for (k, x) in o {
+                r.outcomes.insert(k.clone(), x.as_u64().unwrap_or(0));
+            }
+        }
+        r.samples = v["samples"].as_array().cloned().unwrap_or_default();
+        for x in v["violations"].as_array().cloned().unwrap_or_default() {
+            r.violations.push(Violation {
+                signature: x["signature"].as_str().unwrap_or("").to_string(),
+                what: x["what"].as_str().unwrap_or("").to_string(),
+                case: x["case"].clone(),
+            });
+        }
+        r.violation_count = v["violation_count"].as_u64().unwrap_or(0);
+        r.caps = v["caps"].as_array().map(|a| a.iter().filter_map(|x| x.as_str().map(String::from)).collect()).unwrap_or_default();
+        r.resource = v["resource"].as_u64().unwrap_or(0);
+        if let Some(o) = v["extra"].as_object() {
+            for (k, x) in o {
+                r.extra.insert(k.clone(), x.clone());
+            }
+        }
+        if let Some(o) = v["counters"].as_object() {
+            for (k, x) in o {
+                r.counters.insert(k.clone(), x.as_u64().unwrap_or(0));
+            }
+        }
+        r.exhaustive = v["exhaustive"].as_bool().unwrap_or(true);
+        r
+    }
+}
+
+pub struct Shard {
+    pub index: usize,
+    pub n: usize,
+    slot: *mut u64,
+    skip: Vec<u64>,
+    locate: Option<u64>,
+    describe_path: String,
+}
+
+unsafe impl Sync for Shard {}
+unsafe impl Send for Shard {}
+
+impl Shard {
+    /// Plain in-process shard (no isolation), for callers that share code paths.
+    pub fn plain(index: usize, n: usize) -> Shard {
+        Shard {
+            index,
+            n,
+            slot: std::ptr::null_mut(),
+            skip: Vec::new(),
+            locate: None,
+            describe_path: String::new(),
+        }
+    }
+    /// true if case `idx` (a running index private to the shard function) belongs to this shard
+    pub fn mine(&self, idx: u64) -> bool {
+        (idx % self.n as u64) as usize == self.index
+    }
+    /// Must be called before executing case `idx`; returns false when the case is to be skipped.
+    pub fn begin_case(&self, idx: u64, describe: &dyn Fn() -> String) -> bool {
+        if let Some(k) = self.locate {
+            if idx != k {
+                return false;
+            }
+            let _ = std::fs::write(&self.describe_path, describe());
+        } else if self.skip.contains(&idx) {
+            return false;
+        }
+        if !self.slot.is_null() {
+            unsafe {
+                std::ptr::write_volatile(self.slot, idx + 1);
+                let c = std::ptr::read_volatile(self.slot.add(1));
+                std::ptr::write_volatile(self.slot.add(1), c + 1);
+            }
+        }
+        true
+    }
+}
+
+pub struct ForkCfg {
+    pub threads: usize,
+    pub mem_bytes: u64,
+    pub case_timeout_s: u64,
+    /// signature prefix for "process died" violations, e.g. "C01/abort"
+    pub died_signature: String,
+}
+
+enum ChildEnd {
+    Done(Report),
+    Died { case: Option<u64>, why: String, resource: bool },
+}
+
+fn tmp_dir() -> String {
+    let d = format!("{}/target/tmp", verif_dir());
+    std::fs::create_dir_all(&d).ok();
+    d
+}
+
+fn run_child<F>(cfg: &ForkCfg, shard: usize, nshards: usize, skip: &[u64], locate: Option<u64>, slots: *mut u64, f: &F) -> libc::pid_t
+where
+    F: Fn(&Shard) -> Report + Sync,
+{
+    let slot = unsafe { slots.add(shard * 2) };
+    unsafe {
+        std::ptr::write_volatile(slot, 0);
+        std::ptr::write_volatile(slot.add(1), 0);
+    }
+    let pid = unsafe { libc::fork() };
+    if pid != 0 {
+        return pid;
+    }
+    // ---- child
+    let me = std::process::id();
+    let dir = tmp_dir();
+    let errp = std::ffi::CString::new(format!("{dir}/{me}.err")).unwrap();
+    unsafe {
+        let fd = libc::open(errp.as_ptr(), libc::O_WRONLY | libc::O_CREAT | libc::O_TRUNC, 0o644);
+        if fd >= 0 {
+            libc::dup2(fd, 2);
+            libc::close(fd);
+        }
+    }
+    set_mem_limit(cfg.mem_bytes);
+    let timeout = cfg.case_timeout_s;
+    let slot_addr = slot as usize;
+    // watchdog: a case that makes no progress for `timeout` seconds ends the process
+    std::thread::spawn(move || {
+        let slot = slot_addr as *mut u64;
+        let mut last = u64::MAX;
+        let mut since = std::time::Instant::now();
+        loop {
+            std::thread::sleep(std::time::Duration::from_millis(250));
+            let cur = unsafe { std::ptr::read_volatile(slot.add(1)) };
+            if cur != last {
+                last = cur;
+                since = std::time::Instant::now();
+            } else if since.elapsed().as_secs() >= timeout {
+                eprintln!("WATCHDOG: no progress for {timeout}s");
+                unsafe { libc::_exit(97) };
+            }
+        }
+    });
+    let sh = Shard {
+        index: shard,
+        n: nshards,
+        slot,
+        skip: skip.to_vec(),
+        locate,
+        describe_path: format!("{dir}/{me}.case"),
+    };
+    let out = format!("{dir}/{me}.json");
+    let code = std::thread::scope(|sc| {
+        let handle = std::thread::Builder::new()
+            .stack_size(512 << 20)
+            .spawn_scoped(sc, || {
+                let r = catch(|| f(&sh));
+                match r {
+                    Ok(rep) => {
+                        let _ = std::fs::write(&out, serde_json::to_string(&rep.to_json()).unwrap());
+                        0
+                    }
+                    Err(m) => {
+                        eprintln!("HARNESS-PANIC: {m}");
+                        98
+                    }
+                }
+            });
+        match handle {
+            Ok(h) => h.join().unwrap_or(99),
+            Err(_) => 99,
+        }
+    });
+    unsafe { libc::_exit(code) };
+}
+
+fn wait_child(pid: libc::pid_t, slots: *mut u64, shard: usize) -> ChildEnd {
+    let mut status: libc::c_int = 0;
+    unsafe { libc::waitpid(pid, &mut status, 0) };
+    collect_child(pid, status, slots, shard)
+}
+
+fn collect_child(pid: libc::pid_t, status: libc::c_int, slots: *mut u64, shard: usize) -> ChildEnd {
+    let dir = tmp_dir();
+    let err = std::fs::read_to_string(format!("{dir}/{pid}.err")).unwrap_or_default();
+    let out = format!("{dir}/{pid}.json");
+    let cleanup = || {
+        for ext in ["err", "json", "case"] {
+            let _ = std::fs::remove_file(format!("{dir}/{pid}.{ext}"));
+        }
+    };
+    let exited = libc::WIFEXITED(status);
+    let code = if exited { libc::WEXITSTATUS(status) } else { -1 };
+    if exited && code == 0 {
+        if let Ok(text) = std::fs::read_to_string(&out) {
+            if let Ok(v) = serde_json::from_str::<J>(&text) {
+                cleanup();
+                return ChildEnd::Done(Report::from_json(&v));
+            }
+        }
+    }
+    let progress = unsafe { std::ptr::read_volatile(slots.add(shard * 2)) };
+    let case = if progress == 0 { None } else { Some(progress - 1) };
+    let tail: String = err.lines().rev().take(6).collect::<Vec<_>>().into_iter().rev().collect::<Vec<_>>().join(" | ");
+    let resource = code == 97 || err.contains("memory allocation of") || err.contains("WATCHDOG");
+    let why = if exited {
+        format!("exit status {code}: {tail}")
+    } else {
+        format!("killed by signal {}: {tail}", libc::WTERMSIG(status))
+    };
+    cleanup();
+    ChildEnd::Died { case, why, resource }
+}
+
+/// Runs `f` for every shard in forked children (at most `cfg.threads` at a time).
+/// MUST be called from a single-threaded parent.
+pub fn par_forked<F>(cfg: &ForkCfg, nshards: usize, f: F) -> Report
+where
+    F: Fn(&Shard) -> Report + Sync,
+{
+    let slots = unsafe {
+        libc::mmap(
+            std::ptr::null_mut(),
+            nshards * 16 + 16,
+            libc::PROT_READ | libc::PROT_WRITE,
+            libc::MAP_SHARED | libc::MAP_ANONYMOUS,
+            -1,
+            0,
+        ) as *mut u64
+    };
+    assert!(!slots.is_null() && slots as isize != -1, "mmap failed");
+    let mut total = Report::new();
+    // (shard, skip list, locate)
+    let mut queue: std::collections::VecDeque<(usize, Vec<u64>, Option<u64>)> = (0..nshards).map(|s| (s, Vec::new(), None)).collect();
+    let mut running: Vec<(libc::pid_t, usize, Vec<u64>, Option<u64>)> = Vec::new();
+    let mut died_total = 0u64;
+    while !queue.is_empty() || !running.is_empty() {
+        while running.len() < cfg.threads {
+            let Some((s, skip, locate)) = queue.pop_front() else { break };
+            let pid = run_child(cfg, s, nshards, &skip, locate, slots, &f);
+            if pid < 0 {
+                eprintln!("ENGINE-ERROR: fork failed");
+                std::process::exit(3);
+            }
+            running.push((pid, s, skip, locate));
+        }
+        let mut status: libc::c_int = 0;
+        let pid = unsafe { libc::waitpid(-1, &mut status, 0) };
+        if pid <= 0 {
+            continue;
+        }
+        let Some(pos) = running.iter().position(|r| r.0 == pid) else { continue };
+        let (_, s, skip, locate) = running.remove(pos);
+        // the description file must be read before cleanup
+        let desc = std::fs::read_to_string(format!("{}/{pid}.case", tmp_dir())).ok();
+        match collect_child(pid, status, slots, s) {
+            ChildEnd::Done(rep) => {
+                if locate.is_some() {
+                    // the located case did not fail when run alone: not deterministic
+                    total.count("process_deaths_not_reproduced_alone", 1);
+                    let mut sk = skip.clone();
+                    sk.push(locate.unwrap());
+                    queue.push_back((s, sk, None));
+                } else {
+                    total.merge(rep);
+                }
+            }
+            ChildEnd::Died { case, why, resource } => {
+                died_total += 1;
+                if died_total > 2000 {
+                    eprintln!("ENGINE-ERROR: more than 2000 worker deaths; giving up ({why})");
+                    std::process::exit(3);
+                }
+                match (locate, case) {
+                    (None, Some(k)) => {
+                        // first death: run the culprit alone to get its description and confirm
+                        queue.push_front((s, skip, Some(k)));
+                    }
+                    (Some(k), _) => {
+                        let desc = desc.unwrap_or_else(|| format!("case #{k} of shard {s}/{nshards}"));
+                        if resource {
+                            total.resource += 1;
+                            total.count("resource_outcomes(memory or time cap)", 1);
+                            if total.extra.len() < 40 {
+                                total.extra.insert(format!("resource_case_{}", total.resource), json!(truncate(&desc, 300)));
+                            }
+                        } else {
+                            total.violation(
+                                format!("{}/process-died", cfg.died_signature),
+                                format!("the process died while running: {} ({why})", truncate(&desc, 400)),
+                                json!({"type":"died","description":desc,"shard":s,"nshards":nshards,"case_index":k}),
+                            );
+                        }
+                        let mut sk = skip.clone();
+                        sk.push(k);
+                        queue.push_back((s, sk, None));
+                    }
+                    (None, None) => {
+                        eprintln!("ENGINE-ERROR: worker for shard {s} died before its first case: {why}");
+                        std::process::exit(3);
+                    }
+                }
+            }
+        }
+    }
+    unsafe { libc::munmap(slots as *mut libc::c_void, nshards * 16 + 16) };
+    total
+}
